@@ -282,6 +282,54 @@ step_sanitise(const char *ctx0, int after_corruption)
     observe(after_corruption ? "sanitise-after-corruption" : "sanitise", ctx);
 }
 
+/* sanitise on a table for which the statement makes no promise about sanitise itself (always-fail registers, areas
+ * without write callback: it may stop with an error half way): nothing is demanded of the call, but the table
+ * stays in use - the steps that follow are judged as before, from whatever state it left */
+static void
+step_sanitise_unjudged(vh_rng *rg, const char *ctx0)
+{
+    const struct rt_desc *d = &inst.d;
+    /* half of the time the storage is damaged out of band first, so that sanitise has something to repair - or
+     * to give up on, where an area cannot be written */
+    if (vh_chance(rg, 1, 2)) {
+        for (int i = 0; i < d->nregs; i++) {
+            const struct rt_reg *r = &d->reg[i];
+            unsigned x = (unsigned)vh_below(rg, 4);
+            if (x == 0)
+                continue;
+            uint64_t bits = x == 1 ? vh_rand(rg) : x == 2 ? ~0ull
+                            : rt_bits(r->type, rt_neighbour(r->type, vh_chance(rg, 1, 2) ? r->lo : r->hi, vh_chance(rg, 1, 2) ? 1 : -1));
+            rt_encode(r->type, d->bigendian, bits, rt_model_word(&inst, r->addr));
+        }
+        for (int a = 0; a < d->nareas; a++)
+            memcpy(inst.store[a], inst.model[a], 2 * (size_t)d->area[a].size);
+        VH_COUNT("step: storage damaged out of band before an unjudged sanitise");
+    }
+    RegisterAccess a = register_sanitise(&inst.t);
+    rt_sync_model_from_storage(&inst);
+    /* whatever sanitise left undecodable or violating is put right out of band, as an operator would */
+    for (int i = 0; i < d->nregs; i++) {
+        const struct rt_reg *r = &d->reg[i];
+        uint64_t bits;
+        int valid = rt_model_reg(&inst, i, &bits);
+        if (r->ck >= REGV_TYPE_MIN && (!valid || !rt_satisfies(r, rt_from_bits(r->type, bits), 0)))
+            rt_encode(r->type, d->bigendian, rt_bits(r->type, r->def), rt_model_word(&inst, r->addr));
+        else if (!valid)
+            rt_encode(r->type, d->bigendian, rt_bits(r->type, r->def), rt_model_word(&inst, r->addr));
+    }
+    for (int ar = 0; ar < d->nareas; ar++)
+        memcpy(inst.store[ar], inst.model[ar], 2 * (size_t)d->area[ar].size);
+    for (int i = 0; i < inst.d.nregs; i++)
+        inst.touched[i] = register_was_touched(&inst.t, (RegisterHandle)i);
+    if (a.code == REG_ACCESS_SUCCESS)
+        VH_COUNT("step: sanitise outside its promise, succeeded");
+    else
+        VH_COUNT("step: sanitise outside its promise, stopped with an error");
+    char ctx[160];
+    snprintf(ctx, sizeof ctx, "%s sanitise (not judged) code=%d", ctx0, a.code);
+    observe("after-unjudged-sanitise", ctx);
+}
+
 static int
 setup_table(vh_rng *rg, int allow_fail, int all_writable)
 {
@@ -347,8 +395,10 @@ history_body(uint64_t idx, vh_rng *rgp)
             step_set(&rg, c);
         else if (x < 55)
             step_bits(&rg, c);
-        else if (x < 95 || allow_fail)
+        else if (x < 95)
             step_block(&rg, c);
+        else if (allow_fail)
+            step_sanitise_unjudged(&rg, c);
         else
             step_sanitise(c, 0);
         if (*vh_nfail != f0) {
@@ -455,6 +505,7 @@ harness_run(void)
                                  "step: bit operation with a mismatched operand refused",
                                  "step: bit operation refused by the constraint", "step: block write accepted",
                                  "step: block write refused", "step: sanitise",
+                                 "step: sanitise outside its promise, stopped with an error",
                                  "sanitise: register with undecodable content reset",
                                  "sanitise: register violating its constraint reset",
                                  "sanitise: register keeps its value" };
